@@ -203,6 +203,17 @@ fn sparse_bare(ctx: &mut Ctx, bits: &BitsDesc, width: u64) {
         Ok(Ok(sv)) => {
             let q = if m.len <= 64 { Queries::exhaustive(&m) } else { Queries::edges(&m, &[], &[16], 24, m.len <= 100_000) };
             check_bitvec!(ctx, &sv, &m, "SparseVector(support-free file)", &q, case);
+            // The same file as the payload of an optional structure, followed by a sentinel.
+            let mut opt: Vec<u8> = ((file.len() / 8) as u64).to_le_bytes().to_vec();
+            opt.extend_from_slice(&file);
+            opt.extend_from_slice(&0x5E47u64.to_le_bytes());
+            let got = guard(|| {
+                let mut r = CountingReader::new(&opt);
+                let v = Option::<SparseVector>::load(&mut r);
+                let next = u64::load(&mut r).ok();
+                (v.map(|o| o.map(|x| x == sv)).map_err(|e| e.to_string()), next)
+            });
+            ctx.expect(|| "Option<SparseVector>.load[support-free file]".to_string(), got, &(Ok(Some(true)), Some(0x5E47)), case);
             // With the width the library itself would choose, the loaded value equals the built one.
             let built = sparse_from_model(&m).unwrap();
             let mut problems = Vec::new();
@@ -241,6 +252,16 @@ fn wm_bare(ctx: &mut Ctx, values: &[u64]) {
                 }
             }
             ctx.expect(|| "WaveletMatrix(support-free file).len".to_string(), guard(|| wm.len()), &values.len(), case);
+            let mut opt: Vec<u8> = ((file.len() / 8) as u64).to_le_bytes().to_vec();
+            opt.extend_from_slice(&file);
+            opt.extend_from_slice(&0x5E47u64.to_le_bytes());
+            let got = guard(|| {
+                let mut r = CountingReader::new(&opt);
+                let v = Option::<WaveletMatrix>::load(&mut r);
+                let next = u64::load(&mut r).ok();
+                (v.map(|o| o.map(|x| x == wm)).map_err(|e| e.to_string()), next)
+            });
+            ctx.expect(|| "Option<WaveletMatrix>.load[support-free file]".to_string(), got, &(Ok(Some(true)), Some(0x5E47)), case);
         }
         Ok(Err(e)) => {
             ctx.require(|| "WaveletMatrix.load[support-free file]".to_string(), false, case, || json!({"observed": format!("Err({})", e)}));
